@@ -81,7 +81,9 @@ type sc = {
   mutable had_stop : bool;
   mutable next_seen : bool;                     (* a supervisor round began since the last Start call *)
   mutable late_cancel : (coq_N * string) list;  (* cancellations observed before the event that explains them was recorded *)
-  mutable late_ret : string option;             (* return of a blocked API call observed before the dispatcher's next record *)
+  mutable late_ret : string option;
+  mutable life : ServiceSpec.lstate option;      (* trace scanners of ServiceSpec.v (None: already reported) *)
+  mutable gate : ServiceSpec.gstate option;             (* return of a blocked API call observed before the dispatcher's next record *)
 }
 
 let run path =
@@ -97,6 +99,31 @@ let run path =
   let rec feed c (line : string) (e : event) =
     if c.alive && c.mon then begin
       Hashtbl.replace classes (sup_name c.st.sp ^ "/" ^ api_name c.st.ap ^ "/" ^ ev_name e) ();
+      (* the trace scanners judge the observed event sequence by itself, whatever the monitor's state *)
+      let scanner_said = ref false in
+      (match c.life with
+       | Some l -> (match ServiceSpec.life_step l e with
+           | Some l' -> c.life <- Some l'
+           | None -> c.life <- None; scanner_said := true; incr diffs;
+             Printf.printf "propfail %s lifecycle name=%s event#%d [%s] %s\n" c.k c.name c.nev line
+               (match e with
+                | EStartRet b -> "Start returned " ^ string_of_bool b ^ (if l.ServiceSpec.l_run then " although a supervisor is running or being stopped" else " although no supervisor is running")
+                | EStopRet b -> "Stop returned " ^ string_of_bool b ^ " contradicting the running state"
+                | EStartCall | EStopCall _ -> "a Start/Stop call overlaps another one"
+                | _ -> "supervisor activity (" ^ ev_name e ^ ") while no supervisor may exist: after Stop returned / before Start"))
+       | None -> ());
+      (match c.gate with
+       | Some g -> (match ServiceSpec.gate_step g e with
+           | Some g' -> c.gate <- Some g'
+           | None -> c.gate <- None; scanner_said := true; incr diffs;
+             Printf.printf "propfail %s fifo name=%s event#%d [%s] a command is handed to the client although no dispatcher may run: %s\n" c.k c.name c.nev line
+               (match g with
+                | ServiceSpec.G0 -> "no connection is online"
+                | ServiceSpec.G2 id -> "the resubscribe request " ^ string_of_n id ^ " has not been acknowledged"
+                | ServiceSpec.G4 -> "the previous command's send failed"
+                | _ -> "the dispatcher on this connection is over (failed dispatch or Disconnect)"))
+       | None -> ());
+      if !scanner_said then c.alive <- false else
       match step c.st e, e with
       | Some s', _ ->
         c.st <- s';
@@ -137,6 +164,16 @@ let run path =
             (match fut_get n c.st.futs with
              | Some st -> Some ("futures", "future " ^ string_of_n n ^ " observed " ^ ev_name e ^ " while the model has it " ^ cause_name st)
              | None -> None)
+          (* the connection came online with a non-empty set and the supervisor went on without a resubscribe request *)
+          | _ when c.st.sp = SResubCall && ServiceSpec.is_sup_event e ->
+            Some ("resub_set", "the connection is online, the subscription set is " ^ s_of_subs (resub_list c.st.subs) ^
+                               ", but the supervisor went on (" ^ ev_name e ^ ") without a resubscribe request")
+          (* the bounded queue: a caller returns un-cancelled only once its command is in the queue, and gives up
+             (QueueTimeout) only while the queue is full *)
+          | ECmdRet when (match c.st.ap with ACmd (_, _, true) -> true | _ -> false) ->
+            Some ("queue", Printf.sprintf "the call returned with its future pending although the queue (capacity %s) was full and the dispatcher took nothing" (string_of_n c.st.cap))
+          | EQueueTimeout when (match c.st.ap with ACmd (_, _, false) -> true | _ -> false) ->
+            Some ("queue", Printf.sprintf "the caller gave up (QueueTimeout) although the queue (capacity %s) had room: %d queued" (string_of_n c.st.cap) (L.length c.st.queue))
           | _ -> None in
         (match clause with
          | Some (cl, txt) -> reject c (Printf.sprintf "propfail %s %s name=%s event#%d [%s] %s" c.k cl c.name c.nev line txt)
@@ -147,7 +184,8 @@ let run path =
     | "scn" :: k :: rest ->
       let c = { k; name = "?"; mon = true; st = init (n_of_int 64); alive = true; nev = 0; issued_b = [];
                 resub_ids = []; conn = "0"; expect = []; peers = []; finals = []; stopcalls = 0; stoprets = 0;
-                restart_pending = false; had_stop = false; next_seen = false; late_cancel = []; late_ret = None } in
+                restart_pending = false; had_stop = false; next_seen = false; late_cancel = []; late_ret = None;
+                life = Some { ServiceSpec.l_run = false; l_call = None }; gate = Some ServiceSpec.G0 } in
       L.iter (fun w -> match split '=' w with
         | ["name"; v] -> c.name <- v
         | ["cap"; v] -> c.st <- init (n_of_string v)
@@ -229,7 +267,8 @@ let run path =
         L.iter (fun (n, l) -> if c.alive then
                    fail "futures" (Printf.sprintf "[%s] observed, but the model never cancels future %s (it has it %s)" l (string_of_n n)
                                      (match fut_get n c.st.futs with Some m -> cause_name m | None -> "?"))) c.late_cancel;
-        if c.alive && c.late_ret <> None then begin incr diffs; Printf.printf "diff %s name=%s a blocked API call returned but the dispatcher never took a command\n" c.k c.name end;
+        if c.alive && c.late_ret <> None then
+          fail "queue" (Printf.sprintf "a call returned with its future pending although the queue (capacity %s) was full and the dispatcher never took a command" (string_of_n c.st.cap));
         if c.alive then
           L.iter (fun (n, st) ->
             match fut_get (n_of_int n) c.st.futs with
